@@ -1,5 +1,177 @@
+"""C20 - calls are pure: arguments stay untouched and results ignore call history."""
+import ast
+
 from .. import AnalysisBroken
+from ..eff import ALL_MUTATORS, RNG_ALLOWED, Effects
+from ..rules import where_of
+from ..terms import head, show, strip, walk
+
+CLAIMED = True
+LEVEL = "other"
+TECHNIQUE = "may-alias / effect analysis with bottom-up mutation summaries over the resolved call graph (fixpoint); inventories of mutable defaults, global stores, class-level state, caching decorators and random sources"
+TEXT = ("Decides that no public function or method (thorough: no function at all) can write - directly or through a callee, following aliases through "
+        "attribute loads, subscripts, views, np.asarray / ensure_numpy, iteration and conditional values - to an object reachable from one of its "
+        "parameters or from one of its default values; that the only store to module-level state is the audited kdtree parameter block (written "
+        "before every read, never read across calls: C11 rules re-checked here); that class-level attributes are immutable values and no caching "
+        "decorator exists; that randomness comes only from numpy's legacy global API (rand / choice / shuffle) and DataFrame.sample, so it is "
+        "reproducible under numpy.random.seed. Hence every result is a function of the arguments and the numpy global RNG state, for every call "
+        "history including calls that raised. Grade A modulo the alias model; third-party internals (matplotlib's current axes) are out of scope.")
+NOTE = ("Trusted: the fresh / may-alias classification of library calls in prsa/eff.py; methods of third-party objects other than the listed in-place container "
+        "methods do not mutate their receiver's data. Excluded with reason: 'self' in __init__; **kwargs / *args collectors (fresh per call); "
+        "ClusterGridSplit.plot_matrix storing the drawn matrix on the seaborn grid it belongs to. Not decided: PYTHONHASHSEED-dependent ordering of lists built from sets.")
+
+EXCLUDE = {
+    ("pyrepseq.plotting.ClusterGridSplit.plot_matrix", "self"): "seaborn ClusterGrid protocol: plot_matrix stores the reordered matrix and mask on the grid object that is being drawn",
+}
+
+POSITIVE = '''
+def witness(values, options=dict(scale=1)):
+    options.update(dict(n=len(values)))
+    return options
+'''
 
 
-def run(r):
-    raise AnalysisBroken("rule set for C20 not implemented yet (fail-closed stub)")
+def _touches_class_attr(P, o, an):
+    """Does the written object alias the class-level attribute ``an`` (reached through self / cls / the class)?"""
+    from ..eff import VIEW_METHODS
+    o = strip(o)
+    h = head(o)
+    if h == "attr":
+        b = strip(o[1])
+        if o[2] == an and (b in (("param", "self"), ("param", "cls")) or (head(b) == "glob" and b[1] in P.classes)):
+            return True
+        return _touches_class_attr(P, b, an)
+    if h in ("sub", "item", "star", "enter"):
+        return _touches_class_attr(P, o[1], an)
+    if h in ("iter", "citer"):
+        return _touches_class_attr(P, o[-1], an)
+    if h == "ite":
+        return _touches_class_attr(P, o[2], an) or _touches_class_attr(P, o[3], an)
+    if h == "mut":
+        return _touches_class_attr(P, o[2], an)
+    if h == "call" and head(strip(o[1])) == "attr" and strip(o[1])[2] in VIEW_METHODS:
+        return _touches_class_attr(P, strip(o[1])[1], an)
+    return False
+
+
+def run(r, all_functions=False):
+    rep = r.rep
+    E = Effects(r.P, r.A)
+    rep.explanation = ("Effect summaries were computed for every function of the package to a fixpoint over the call graph; every parameter of every "
+                       "public function was checked against them; persistent-state inventories were enumerated.")
+    rep.trust("library calls return fresh objects unless listed as views / aliases in prsa/eff.py (np.asarray, .values, .to_numpy(), reshape, iteration helpers ...)",
+              "in-place operations are: subscript / attribute stores, augmented assignment, the container methods " + ", ".join(sorted(["append", "extend", "update", "pop", "sort", "setdefault", "clear", "remove", "insert", "add", "discard", "reverse", "fill", "put", "resize"])) +
+              ", inplace=True, np.random.shuffle / np.fill_diagonal / np.put / np.copyto / random.shuffle")
+    targets = sorted(E.funcs) if all_functions else r.P.public_functions()
+    n = 0
+    for q in targets:
+        s = r.A.summary(q)
+        rep.analysed(q)
+        fn = r.P.functions[q]
+        for name, default, kind in s.params:
+            if kind in ("var", "kw"):
+                continue
+            if name == "self" and fn.name == "__init__":
+                continue
+            if (q, name) in EXCLUDE:
+                continue
+            n += 1
+            hit = E.mut[q].get(name)
+            if hit is None:
+                rep.ob("C20-EFF", q, True, f"parameter '{name}' is never written to", where_of(r.P, fn, fn.node), key=f"param {name}")
+            else:
+                what, path = hit
+                rep.ob("C20-EFF", q, False, f"parameter '{name}' (the caller's object{' / the shared default value' if default is not None else ''}) is modified in place",
+                       f"{r.P.modules[r.P.functions[path[-1][0]].module].relpath}:{path[-1][1]}", expected="no write through any alias of the parameter",
+                       found=what + "  via " + " -> ".join(f"{p.rsplit('.', 1)[1]}:{l}" for p, l in path), key=f"param {name}")
+    rep.require(n >= (150 if all_functions else 100), f"C20-EFF: {n} parameters analysed, floor is {150 if all_functions else 100}")
+    # ---- defaults
+    defs = E.mutable_defaults()
+    for q, name, d in defs:
+        fn = r.P.functions[q]
+        hit = E.mut[q].get(name)
+        rep.ob("C20-DEF", q, hit is None, f"mutable default of '{name}' is never modified (it is shared by all calls)", where_of(r.P, fn, fn.node), expected="read-only use of the default",
+               found=(hit[0] if hit else "read-only"), key=f"default {name}")
+    rep.require(len(defs) >= 6, f"C20-DEF: {len(defs)} mutable defaults inventoried, floor is 6")
+    # ---- module-level and class-level state
+    gl = [(q, root, e, w) for q in E.funcs for root, e, w in E.direct[q] if root[0] == "glob"]
+    for q, root, e, w in gl:
+        ok = root[1] == "pyrepseq.nn._cal_params" and q == "pyrepseq.nn._to_triplets"
+        rep.ob("C20-GLB", q, ok, "the only module-level store is the audited kdtree parameter block", where_of(r.P, r.P.functions[q], e.node), expected="no store to module-level state",
+               found=w, key=f"global store {root[1]}")
+    rep.require(len(gl) >= 1, "C20-GLB: the kdtree parameter-block store was not found (anchor vanished)")
+    from ._nn import check_pool
+    check_pool(r, "C20-GLB")
+    for cq, ci in sorted(r.P.classes.items()):
+        for an, val in ci.attrs.items():
+            mutable = isinstance(val, (ast.List, ast.Dict, ast.Set, ast.ListComp, ast.DictComp, ast.SetComp)) or \
+                (isinstance(val, ast.Call) and isinstance(val.func, ast.Name) and val.func.id in ("dict", "list", "set", "defaultdict"))
+            if not mutable:
+                continue
+            # a class-level container is shared by all instances and calls: nobody may modify it in place
+            writers = []
+            for q in E.funcs:
+                s = r.A.summary(q)
+                for e in s.events:
+                    objs = []
+                    if e.kind in ("setitem", "augitem", "delitem", "setattr", "augattr"):
+                        objs.append(e["obj"] if e.kind not in ("setattr", "augattr") else ("attr", e["obj"], e["name"]))
+                    elif e.kind == "call" and head(strip(strip(e["term"])[1])) == "attr" and strip(strip(e["term"])[1])[2] in ALL_MUTATORS:
+                        objs.append(strip(strip(e["term"])[1])[1])
+                    for o in objs:
+                        if _touches_class_attr(r.P, o, an) and e.kind not in ("setattr",):
+                            writers.append((q, e))
+            rep.ob("C20-GLB", cq, not writers, f"class-level container '{an}' (shared by all instances and calls) is never modified in place", f"{r.P.modules[ci.module].relpath}:{val.lineno}",
+                   expected="read-only", found="; ".join(f"{q.rsplit('.', 1)[1]}:{e.line}" for q, e in writers) or "read-only", key=f"class attr {an}")
+    for q in E.funcs:
+        fn = r.P.functions[q]
+        for dec in getattr(fn.node, "decorator_list", []):
+            txt = ast.unparse(dec)
+            if any(k in txt for k in ("cache", "memo")):
+                rep.ob("C20-GLB", q, False, "no result cache survives between calls", where_of(r.P, fn, fn.node), expected="no caching decorator", found="@" + txt, key="cache decorator")
+    # ---- randomness
+    rng = E.rng_calls()
+    for q, e, name in rng:
+        ok = name in RNG_ALLOWED or name == ".sample"
+        if name == ".sample":
+            kw = dict(strip(e["term"])[3])
+            ok = "random_state" not in kw or head(strip(kw["random_state"])) == "param"
+        rep.ob("C20-RNG", q, ok, "randomness comes from numpy's global legacy generator only (reproducible under numpy.random.seed, never re-seeded inside the library)",
+               where_of(r.P, r.P.functions[q], e.node), expected="np.random.rand / choice / shuffle, DataFrame.sample", found=name, key=f"rng {name}")
+    rep.require(len(rng) >= 5, f"C20-RNG: {len(rng)} random sources inventoried, floor is 5")
+    # ---- positive control: the engine must report a mutated default on every run
+    ws = r.A.summarize_source(POSITIVE, "witness", "pyrepseq.stats")
+    got = [root for root, e, w in E._direct("witness", ws) if root == ("param", "options")]
+    if not got:
+        raise AnalysisBroken("C20-POS: the effect engine did not report the embedded mutated-default witness")
+    rep.ob("C20-POS", "<embedded witness>", True, "positive control: a mutated dict default in an embedded example is reported by the engine", "prsa/props/C20.py", key="positive control")
+
+
+def run_thorough(r):
+    # whole-repository closure: private helpers, nested scopes' hosts and the optional tcrdist modules as well
+    saved = list(r.rep.obligations)
+    r.rep.obligations.clear()
+    r.rep.counts.clear()
+    run(r, all_functions=True)
+
+
+from ..selftest import V  # noqa: E402
+
+VARIANTS = [
+    V("D11-cbar_kws-default-updated", "pyrepseq/plotting.py", "        cbar_kws = dict(cbar_kws, ticks=bounds[:-1] + 0.5)", "        cbar_kws.update(dict(ticks=bounds[:-1] + 0.5))", rule="C20"),
+    V("linkage_kws-setdefault", "pyrepseq/distance.py", "    distances = metric.calc_pdist_vector(seqs)\n    linkage = hc.linkage", "    linkage_kws.setdefault('metric', 'euclidean')\n    distances = metric.calc_pdist_vector(seqs)\n    linkage = hc.linkage", rule="C20"),
+    V("pcDelta-sorts-input", "pyrepseq/distance.py", "    seqs = convert_tuple_to_dataframe_if_necessary(seqs)\n    seqs2 = convert_tuple_to_dataframe_if_necessary(seqs2)\n\n    seqs = downsample", "    seqs = convert_tuple_to_dataframe_if_necessary(seqs)\n    seqs.sort()\n    seqs2 = convert_tuple_to_dataframe_if_necessary(seqs2)\n\n    seqs = downsample", rule="C20-EFF"),
+    V("symdel-module-memo", "pyrepseq/nn.py", "    seqs = ensure_numpy(seqs)\n    symdeldb = SymdelDB(seqs, max_edits)", "    global _symdel_memo\n    _symdel_memo = (seqs, max_edits)\n    seqs = ensure_numpy(seqs)\n    symdeldb = SymdelDB(seqs, max_edits)", rule="C20-GLB"),
+    V("expand-cdrs-without-copy", "pyrepseq/metric/tcr_metric/tcr_levenshtein.py", "        df = df.copy()\n        df[[\"CDR1A\"", "        df[[\"CDR1A\"", rule="C20-EFF"),
+    V("downsample-own-generator", "pyrepseq/distance.py", "    return np.random.choice(seqs, maxseqs, replace=False)", "    return np.random.default_rng().choice(seqs, maxseqs, replace=False)", rule="C20-RNG"),
+    V("standardize-inplace-rename", "pyrepseq/io.py", "    df_standardized = df.copy()\n", "    df_standardized = df\n", rule="C20-EFF"),
+    V("callee-mutation-propagates", "pyrepseq/util.py", "def ensure_numpy(arr_like):\n    module = type(arr_like).__module__", "def ensure_numpy(arr_like):\n    if isinstance(arr_like, list):\n        arr_like.sort()\n    module = type(arr_like).__module__", rule="C20-EFF"),
+    V("fill-diagonal-on-input", "pyrepseq/stats.py", "    data_square = squareform(data)\n    np.fill_diagonal(\n        data_square, np.nan\n    )\n    return pd.DataFrame(data_square, index=names, columns=names)", "    data_square = squareform(data)\n    np.fill_diagonal(\n        data_square, np.nan\n    )\n    df.drop(columns=[], inplace=True)\n    return pd.DataFrame(data_square, index=names, columns=names)", rule="C20-EFF"),
+    V("reseed-inside-library", "pyrepseq/stats.py", "    r = np.random.rand(int(size))", "    np.random.seed(0)\n    r = np.random.rand(int(size))", rule="C20-RNG"),
+    V("shuffle-input-labels", "pyrepseq/plotting.py", "    label, count = np.unique(labels, return_counts=True)\n    if not min_count is None:\n        label = label[count >= min_count]\n    np.random.shuffle(label)\n    lut = dict(zip(label, sns.hls_palette", "    label, count = np.unique(labels, return_counts=True)\n    if not min_count is None:\n        label = label[count >= min_count]\n    np.random.shuffle(labels)\n    lut = dict(zip(label, sns.hls_palette", rule="C20-EFF"),
+    V("tcrdist-kwargs-default-mutated", "pyrepseq/nn.py", "    tcrdist_kwargs_this.update(tcrdist_kwargs)\n", "    tcrdist_kwargs.update(tcrdist_kwargs_this)\n    tcrdist_kwargs_this = tcrdist_kwargs\n", rule="C20"),
+    V("silent-fresh-local-mutation", "pyrepseq/stats.py", "    data = np.array(data)\n    \n    names = [name for name, dfg in groups]", "    data = np.array(data)\n    data.sort()\n    names = [name for name, dfg in groups]", expect="silent"),
+    V("silent-kws-pop", "pyrepseq/plotting.py", "    clustermap_kws.update(kws)\n", "    clustermap_kws.update(kws)\n    kws.pop('unused', None)\n", expect="silent"),
+    V("silent-draw-on-ax", "pyrepseq/plotting.py", "    if log_x:\n        ax.set_xscale(\"log\")", "    ax.grid(True)\n    if log_x:\n        ax.set_xscale(\"log\")", expect="silent"),
+    V("silent-copy-then-sort", "pyrepseq/distance.py", "    strings = list(strings)\n    m = len(strings)", "    strings = list(strings)\n    strings.reverse()\n    strings.reverse()\n    m = len(strings)", expect="silent"),
+]
